@@ -27,6 +27,9 @@ CLASSES = {
 }
 
 NAMES = ["f", "g.txt", "x y.dat", "ü.txt", ".hid", "noext", "arch.tar.gz", "dot.", "日本", "k"]
+# names with the characters a glob pattern gives a meaning to, each next to a sibling the name would match if it were read as a
+# pattern: a path names one node, whatever characters it is made of (seed C18-w5-m1: rm of a missing `r[1].txt` removed r1.txt)
+GLOB_NAMES = ["r[1].txt", "r1.txt", "w?", "wx", "s*", "st", "[ab]", "a", "**", "{x,y}", "x"]
 DIRS = ["", "d", "d/sub", "a b", "é", "d/sub/deep", "new", "x.d", "a b/c d"]
 TEXTS = ["", "a", "hello", "héllo wörld", "\n", "日本語", "l1\nl2\n", "\x00z", "😀", " sp ", "tab\there", "q\"u#o$t%e\\",
          # a leading U+FEFF is content like any other character (what was written is what is read)
@@ -105,10 +108,17 @@ def gen_history(rng, maxlen):
     missing paths and the wrong kind of node often"""
     dirs = rng.sample(DIRS, rng.randint(2, 4))
     pool = []
+    globby = rng.random() < 0.15
     for _ in range(rng.randint(4, 9)):
         d = rng.choice(dirs)
         n = rng.choice(NAMES)
         pool.append((d + "/" + n) if d else n)
+    if globby:
+        d = rng.choice(dirs)
+        k = 2 * rng.randrange(len(GLOB_NAMES) // 2)
+        for n in GLOB_NAMES[k:k + 2] + [rng.choice(GLOB_NAMES)]:
+            pool.append((d + "/" + n) if d else n)
+        pool = pool[-6:]
     pool += [d for d in dirs if d]
     made = []          # paths mentioned so far: later operations prefer them
     files = []         # a rough idea of what exists, only to steer the choice (the models decide)
